@@ -337,7 +337,13 @@ func main() {
 		}
 		if nt {
 			res.NonTrivial++
-			hashes = append(hashes, o.TraceHash)
+			// distinctness: the event trace together with the choice tape that produced it
+			h := o.TraceHash
+			for _, v := range o.Tape {
+				h ^= uint64(v)
+				h *= 1099511628211
+			}
+			hashes = append(hashes, h)
 		}
 		for _, k := range o.KnownHit {
 			res.KnownHits[k]++
